@@ -1,0 +1,23 @@
+//go:build verif
+
+// Contracts for the deductive verifier in /verif (govc).  This file contains
+// comments only; it is compiled only under the build tag "verif" and adds no
+// code.  Syntax: see /verif/DESIGN.md, Appendix B.
+
+package hessian
+
+//@ func encodeInt
+//@   pure
+//@   ensures [C07,C02:int-wf]      G.intAt(result, 0) && len(result) == 1 + G.intRest(result[0])
+//@   ensures [C07,C01:int-denotes] G.decInt(result, 0) == value
+//@   ensures [C07:int-shortest]    len(result) == G.intLen(value)
+
+//@ func decodeIntValue
+//@   requires flag == -1 || (0 <= flag && flag <= 255)
+//@   assigns @pos, @E
+//@   let tagAvail = flag != -1 || old(@pos) < len(@in)
+//@   let tag      = ite(flag == -1, @in[old(@pos)], byte(flag))
+//@   let body     = ite(flag == -1, old(@pos) + 1, old(@pos))
+//@   let fits     = tagAvail && G.isInt(tag) && body + G.intRest(tag) <= len(@in)
+//@   ensures [C03,C07,C01:int-any-form] fits ==> err == nil && result0 == G.decIntT(tag, @in, body) && @pos == body + G.intRest(tag)
+//@   ensures [C14,C03:int-reject]       !fits ==> err != nil
